@@ -60,6 +60,11 @@ var curatedRoots = []Root{
 	{FEN: "5k2/8/5K2/8/8/8/8/6R1 b - - 0 1", Tag: "near-mate"},
 	{FEN: "8/8/8/8/8/1k6/p7/K7 w - - 0 1", Tag: "stalemate"},
 	{FEN: "1k6/8/8/8/8/8/7r/K5r1 w - - 0 1", Tag: "mated"},
+	// long castling with the b-file square attacked is legal (only the king's path matters)
+	{FEN: "r3k2r/8/8/8/4b3/8/8/R3K2R w KQkq - 0 1", Moves: []string{"e1c1"}, Tag: "castle-long-b1-attacked"},
+	{FEN: "r3k2r/8/8/8/8/4B3/8/R3K2R b KQkq - 0 1", Moves: []string{"e8c8"}, Tag: "castle-long-b8-attacked"},
+	{FEN: "r3k2r/8/8/8/8/8/1r6/R3K2R w KQkq - 0 1", Moves: []string{"e1c1", "b2b1"}, Tag: "castle-long-b1-attacked"},
+	{FEN: "r3k2r/pppppppp/8/8/8/8/PPPPPPPP/R3K2R w KQkq - 0 1", Moves: []string{"e1g1", "e8c8"}, Tag: "castled"},
 }
 
 // tinyTreeFENs: bare kings, locked pawns.
@@ -80,6 +85,14 @@ func validateCurated() error {
 		}
 		if err := p.Valid(); err != nil {
 			return fmt.Errorf("curated root %q: %v", r.FEN, err)
+		}
+		g := ref.NewGame(p)
+		for _, ms := range r.Moves {
+			m, err := ref.ParseMove(ms)
+			if err != nil || !g.Cur().IsLegal(m) {
+				return fmt.Errorf("curated root %q: move %s is not legal", r.FEN, ms)
+			}
+			g.Push(m)
 		}
 	}
 	for _, f := range append(append([]string(nil), benchFENs...), tinyTreeFENs...) {
@@ -350,7 +363,7 @@ func genRootUnchecked(rng *rand.Rand, class string) Root {
 		return pick(rng, curatedRoots)
 	case "curated-play":
 		c := pick(rng, curatedRoots)
-		g := ref.NewGame(ref.MustFEN(c.FEN))
+		g := c.Game()
 		playout(rng, g, 1+rng.IntN(4), "")
 		return mk(c.FEN, g, class+":"+c.Tag)
 	case "shuffle2", "shuffle3", "shuffle-ep":
